@@ -23,6 +23,7 @@ import (
 	"net/http"
 	"os"
 	"reflect"
+	"sort"
 	"strconv"
 	"strings"
 	"sync"
@@ -65,6 +66,65 @@ type c06Peer struct {
 	midDoc    atomic.Int32
 	midFn     atomic.Pointer[func(doc int)]
 	inHook    sync.Map // goroutine id -> true while the harness itself is writing from inside a hook
+	hookOps   sync.Map // op number -> true for storage operations the harness issued from inside a hook
+	// document writes seen at the storage boundary (H1), harvested from the store's log
+	opsMu sync.Mutex
+	ops   []*base.VerifOp
+}
+
+// harvest moves the document writes logged by H1 since the last call into p.ops and returns len(p.ops), i.e. the
+// index at which later writes will start.
+func (e *c06Env) harvest(p *c06Peer) int {
+	p.vs.mu.Lock()
+	l := p.vs.log
+	p.vs.log = nil
+	p.vs.mu.Unlock()
+	p.opsMu.Lock()
+	defer p.opsMu.Unlock()
+	for _, op := range l {
+		if c06IsDocWrite(op) && e.isDocKey(op.Key) {
+			p.ops = append(p.ops, op)
+		}
+	}
+	return len(p.ops)
+}
+
+func (p *c06Peer) opsCopy() []*base.VerifOp {
+	p.opsMu.Lock()
+	defer p.opsMu.Unlock()
+	return append([]*base.VerifOp{}, p.ops...)
+}
+
+// classify looks at the storage-boundary history of one document for two history shapes that explain a divergence:
+//
+//	stale resurrection: a write that turned a tombstone into a live document was computed from an older state than the
+//	one it replaced (the open C05 finding: resurrection is written without compare-and-swap), so a committed
+//	revision - here one written by the replication - was overwritten;
+//	retried replicated write: a replicated write of this document lost its compare-and-swap and its update callback
+//	(which runs conflict detection and resolution) ran again.
+func (e *c06Env) classify(doc string, peers ...*c06Peer) string {
+	retried := ""
+	for _, p := range peers {
+		e.harvest(p)
+		var applied []*base.VerifOp
+		for _, op := range p.opsCopy() {
+			if op.Key == doc && op.Applied && op.CasOut != 0 {
+				applied = append(applied, op)
+			}
+		}
+		sort.Slice(applied, func(i, j int) bool { return applied[i].CasOut < applied[j].CasOut })
+		for i, op := range applied {
+			if i > 0 && op.Kind == "WriteUpdateWithXattrs" && op.PrevTombstone && !op.Deleted && op.CasIn != 0 && op.CasIn < applied[i-1].CasOut {
+				return "cause=a-resurrection-computed-from-an-older-tombstone-overwrote-a-newer-committed-revision-on-the-" + p.name + "(resurrection-is-written-without-compare-and-swap:open-C05-finding)"
+			}
+			if op.Gid != e.harness && op.Kind == "WriteUpdateWithXattrs" && op.Attempt >= 2 {
+				if _, mine := p.hookOps.Load(op.N); !mine {
+					retried = "history=a-replicated-write-of-this-document-lost-its-compare-and-swap-on-the-" + p.name + "-and-its-update-callback(conflict-detection-and-resolution)-ran-again"
+				}
+			}
+		}
+	}
+	return retried
 }
 
 type c06Env struct {
@@ -150,8 +210,6 @@ func c06Setup(t *testing.T, run *vlib.Run, c *c06Case) *c06Env {
 		proto = db.CBMobileReplicationV4.SubprotocolString()
 	}
 	vsA, vsP := newVStore(t), newVStore(t)
-	vsA.logOn.Store(false)
-	vsP.logOn.Store(false)
 	peers := SetupISGRPeersWithOpts(t, TestISGRPeerOpts{
 		ActivePeerSupportedBLIPSubProtocols: []string{proto},
 		ActiveRestTesterConfig: &RestTesterConfig{DatabaseConfig: &DatabaseConfig{DbConfig: DbConfig{Name: "activedb"}},
@@ -168,6 +226,9 @@ func c06Setup(t *testing.T, run *vlib.Run, c *c06Case) *c06Env {
 	for _, p := range []*c06Peer{e.A, e.P} {
 		p := p
 		p.vs.SetFault(func(op *base.VerifOp, _ string) base.VerifDecision {
+			if _, mine := p.inHook.Load(op.Gid); mine {
+				p.hookOps.Store(op.N, true)
+			}
 			if p.gateArmed.Load() && op.Gid != e.harness && c06IsDocWrite(op) && e.isDocKey(op.Key) {
 				if g := int(p.gateDoc.Load()); g >= 0 && g != e.docIndex(op.Key) {
 					return base.VerifDecision{}
@@ -229,8 +290,8 @@ type c06Doc struct {
 	Deleted bool              `json:"deleted"`
 	Seq     uint64            `json:"seq,omitempty"`
 	Cas     string            `json:"cas,omitempty"`
-	Parents map[string]string `json:"-"`
-	DelRevs map[string]bool   `json:"-"`
+	Parents map[string]string `json:"revision_tree_parent_of,omitempty"`
+	DelRevs map[string]bool   `json:"tombstoned_revisions,omitempty"`
 	HLV     map[string]uint64 `json:"hlv,omitempty"` // source -> highest value anywhere in the vector (cv, pv, mv)
 	Body    any               `json:"body,omitempty"`
 	BodyRaw string            `json:"body_raw,omitempty"`
@@ -1097,13 +1158,10 @@ func (e *c06Env) passesToIdle(id string, dir db.ActiveReplicatorDirection, conti
 		fa, fp := e.fingerprint(e.A), e.fingerprint(e.P)
 		preA, preP := e.maxDocSeq(e.A), e.maxDocSeq(e.P)
 		s0, _ := e.status(id)
-		e.A.vs.ResetLog()
-		e.P.vs.ResetLog()
-		e.A.vs.logOn.Store(true)
-		e.P.vs.logOn.Store(true)
+		nA, nP := e.harvest(e.A), e.harvest(e.P)
 		good := e.runToCaughtUp(id, dir, continuous)
-		e.A.vs.logOn.Store(false)
-		e.P.vs.logOn.Store(false)
+		e.harvest(e.A)
+		e.harvest(e.P)
 		if !good {
 			return nil, all, false
 		}
@@ -1111,9 +1169,10 @@ func (e *c06Env) passesToIdle(id string, dir db.ActiveReplicatorDirection, conti
 		obs := c06PassObs{Pass: pass, DocsRead: s1.DocsRead - s0.DocsRead, DocsWritten: s1.DocsWritten - s0.DocsWritten,
 			CheckedPush: s1.DocsCheckedPush - s0.DocsCheckedPush, CheckedPull: s1.DocsCheckedPull - s0.DocsCheckedPull,
 			Conflicts: s1.DocWriteConflict - s0.DocWriteConflict, Rejected: (s1.RejectedRemote - s0.RejectedRemote) + (s1.RejectedLocal - s0.RejectedLocal)}
-		for _, p := range []*c06Peer{e.A, e.P} {
-			for _, op := range p.vs.Log() {
-				if c06IsDocWrite(op) && op.Applied && e.isDocKey(op.Key) {
+		for i, p := range []*c06Peer{e.A, e.P} {
+			from := []int{nA, nP}[i]
+			for _, op := range p.opsCopy()[from:] {
+				if op.Applied {
 					obs.DocWrites = append(obs.DocWrites, fmt.Sprintf("%s: %s(%s) cas %d->%d", p.name, op.Kind, op.Key, op.CasIn, op.CasOut))
 				}
 			}
@@ -1152,8 +1211,33 @@ func (e *c06Env) passesToIdle(id string, dir db.ActiveReplicatorDirection, conti
 	return nil, all, true
 }
 
+func (e *c06Env) storageHistory() map[string][]string {
+	out := map[string][]string{}
+	for _, p := range []*c06Peer{e.A, e.P} {
+		if p == nil {
+			continue
+		}
+		e.harvest(p)
+		for _, op := range p.opsCopy() {
+			who := "replication"
+			if op.Gid == e.harness {
+				who = "local write"
+			} else if _, mine := p.hookOps.Load(op.N); mine {
+				who = "local write (inside a replicated write's window)"
+			}
+			errs := ""
+			if op.Err != nil {
+				errs = " err=" + c06Trunc(op.Err.Error(), 80)
+			}
+			out[p.name] = append(out[p.name], fmt.Sprintf("%s %s(%s) by %s: computed from cas %d (tombstone=%v) -> cas %d applied=%v attempts=%d makes-tombstone=%v%s",
+				p.name, op.Kind, op.Key, who, op.CasIn, op.PrevTombstone, op.CasOut, op.Applied, op.Attempt, op.Deleted, errs))
+		}
+	}
+	return out
+}
+
 func (e *c06Env) witness(extra map[string]any) map[string]any {
-	w := map[string]any{"case": e.c, "trace": e.traceCopy(), "acknowledged_local_writes": e.acked,
+	w := map[string]any{"case": e.c, "trace": e.traceCopy(), "acknowledged_local_writes": e.acked, "document_writes_at_the_storage_boundary": e.storageHistory(),
 		"how_to_replay": "two Sync Gateway databases (active with sg-replicate, passive); apply the trace in order: local writes are admin PUT/DELETE with the shown parent revision, replication actions are POST /_replication and PUT /_replicationStatus?action=start|stop on the active"}
 	for k, v := range extra {
 		w[k] = v
@@ -1228,7 +1312,24 @@ func c06Shape(a, p *c06Doc) string {
 	if s := one(a, p, "active", "passive"); s != "" {
 		return s
 	}
-	return one(p, a, "passive", "active")
+	if s := one(p, a, "passive", "active"); s != "" {
+		return s
+	}
+	// second shape: X knows Y's current revision, Y does not know X's, and X's winner does not descend from Y's
+	// current revision: X's winner continues X's own branch (e.g. a resurrection on top of the tombstone that
+	// conflict resolution wrote for X's losing branch) and Y refuses it as a conflict
+	two := func(x, y *c06Doc, xn, yn string) string {
+		_, xKnows := x.Parents[y.Rev]
+		_, yKnows := y.Parents[x.Rev]
+		if xKnows && !yKnows && !c06IsAncestorIn(x.Parents, y.Rev, x.Rev) {
+			return "the-" + xn + "s-winner-continues-a-branch-the-" + yn + "-does-not-have-and-does-not-descend-from-the-" + yn + "s-current-revision(refused-as-conflict)"
+		}
+		return ""
+	}
+	if s := two(a, p, "active", "passive"); s != "" {
+		return s
+	}
+	return two(p, a, "passive", "active")
 }
 
 // checkEqual: the full-convergence oracle for one document.
@@ -1266,12 +1367,14 @@ func (e *c06Env) checkEqual(pr c06Pair, phase string, pairs []c06Pair, passes an
 		return true
 	}
 	sig := e.sigBase() + "|" + phase + "|peers-differ-in-" + field
-	if sh := c06Shape(a, p); sh != "" && !e.hlv {
-		// one cause, many appearances (live / tombstone on either side): the signature names the cause
-		sig = e.sigBase() + "|" + phase + "|peers-differ|shape=" + sh
-	}
 	miss := e.ackedMissing(pairs)
-	if len(miss) > 0 {
+	// one cause, many appearances (live / tombstone on either side): where the storage history or the revision-tree
+	// shape names the cause, the signature names the cause
+	if cls := e.classify(pr.Doc, e.A, e.P); cls != "" {
+		sig = e.sigBase() + "|peers-differ|" + cls
+	} else if sh := c06Shape(a, p); sh != "" && !e.hlv {
+		sig = e.sigBase() + "|" + phase + "|peers-differ|shape=" + sh
+	} else if len(miss) > 0 {
 		sig += "|acknowledged-local-revision-missing-from-its-own-peer"
 	}
 	e.run.Violation("converged", sig, fmt.Sprintf("doc %s after %s: active has %s %s (cv %s) body %s; passive has %s %s (cv %s) body %s",
@@ -1356,7 +1459,9 @@ func (e *c06Env) checkDirection(pairs []c06Pair, passes any) bool {
 		ok = false
 		sig := e.sigBase() + "|after-" + e.c.Direction + "-caught-up|" + bad + "(" + c06State(a) + "-vs-" + c06State(p) + ")"
 		miss := e.ackedMissing(pairs)
-		if len(miss) > 0 {
+		if cls := e.classify(pr.Doc, e.A, e.P); cls != "" {
+			sig = e.sigBase() + "|peers-differ|" + cls
+		} else if len(miss) > 0 {
 			sig += "|acknowledged-local-revision-missing-from-its-own-peer"
 		}
 		e.run.Violation("direction", sig, fmt.Sprintf("doc %s after the %s replication caught up (relation %s): active has %s %s (cv %s) body %s; passive has %s %s (cv %s) body %s",
